@@ -206,7 +206,9 @@ static void il_run(struct block *b, struct block *pred, int depth) {
 		if (i < 0) { il_class_errors++; }
 		else il_def(&b->phi.res, b->phi.class, il_val(b->phi.val[i], b->phi.class));
 	}
-	arrayforeach(&b->insts, ip) il_inst(*ip);
+	/* index-based: the byte length of the instruction array is a concrete integer, while arrayforeach's pointer comparison is
+	 * not always simplified by symex (then every extra unwinding interprets a garbage instruction symbolically) */
+	{ size_t n_ = b->insts.len / sizeof(struct inst *); ip = b->insts.val; for (size_t i_ = 0; i_ < n_; i_++) il_inst(ip[i_]); }
 	switch (b->jump.kind) {
 	case JUMP_NONE: il_run(b->next, b, depth + 1); return;      /* fall through to the next block */
 	case JUMP_JMP: il_run(b->jump.blk[0], b, depth + 1); return;
